@@ -97,22 +97,36 @@ def gen_time(rng, ymin, ymax):
             rng.randint(0, 59), rng.randint(0, 59)]
 
 
-def gen_stats(rng, st):
+def gen_stats(rng, st, allow_empty=False):
+    """statistics of one column; the boundaries of every dimension are drawn deliberately: constant column,
+    quantile ties (min == first quartile, median == max), one category, no category (multicategorical), a
+    single fitted year, embedding width 1, and (allow_empty) the statistics of an entirely missing column"""
     if st == "numerical":
+        if allow_empty and rng.chance(0.04):
+            return {"MEAN": None, "STD": None, "QUANTILES": [None] * 5}      # compute_col_stats defaults
         q = sorted(dy(rng) for _ in range(5))
-        if rng.chance(0.2):
+        tie = rng.random()
+        if tie < 0.2:
             q = [q[0]] * 5                       # constant column
+        elif tie < 0.3:
+            q[1] = q[0]                          # min == first quartile
+        elif tie < 0.4:
+            q[2] = q[3] = q[4]                   # median == max
         return {"MEAN": dy(rng), "STD": 0.0 if q[0] == q[4] else abs(dy(rng, 0, 8)) + 0.25, "QUANTILES": q}
     if st == "categorical":
+        if allow_empty and rng.chance(0.04):
+            return {"COUNT": [[], []]}
         k = rng.randint(1, 4)
         return {"COUNT": [[f"c{i}" for i in range(k)], sorted((rng.randint(1, 9) for _ in range(k)), reverse=True)]}
     if st == "multicategorical":
-        k = rng.randint(1, 4)
+        k = rng.randint(0, 4)                   # 0: a column of blank / missing cells only
         return {"MULTI_COUNT": [[f"t{i}" for i in range(k)],
                                 sorted((rng.randint(1, 9) for _ in range(k)), reverse=True)]}
     if st == "timestamp":
+        if allow_empty and rng.chance(0.04):
+            return {"YEAR_RANGE": [-1, -1], "OLDEST_TIME": [-1] * 7, "MEDIAN_TIME": [-1] * 7, "NEWEST_TIME": [-1] * 7}
         ymin = rng.pick([1700, 1969, 1999, 2020])
-        ymax = ymin + rng.randint(0, 30)
+        ymax = ymin + (0 if rng.chance(0.2) else rng.randint(0, 30))     # a single fitted year
         ts = sorted(gen_time(rng, ymin, ymax) for _ in range(3))
         return {"YEAR_RANGE": [ymin, ymax], "OLDEST_TIME": ts[0], "MEDIAN_TIME": ts[1], "NEWEST_TIME": ts[2]}
     if st == "embedding":
@@ -123,25 +137,25 @@ def gen_stats(rng, st):
 def gen_cell(rng, st, stats, miss_p, allow_bad=False):
     """one cell of a column with statistics `stats`; None-like encodings of a missing cell per stype"""
     if st == "numerical":
-        if rng.chance(miss_p):
+        if rng.chance(miss_p) or stats["MEAN"] is None:
             return None
         return rng.pick([dy(rng), dy(rng), stats["MEAN"], stats["QUANTILES"][rng.randint(0, 4)],
                          dy(rng, -4000, 4000, 0)])          # in range, on a boundary, far outside the training range
     if st == "categorical":
-        if rng.chance(miss_p):
+        if rng.chance(miss_p) or not stats["COUNT"][0]:
             return -1                                        # missing or unseen category
         return rng.randint(0, len(stats["COUNT"][0]) - 1)
     if st == "multicategorical":
         if rng.chance(miss_p):
             return [-1]
         k = len(stats["MULTI_COUNT"][0])
-        n = rng.wpick([(2, 0), (3, 1), (3, 2), (1, 3)])
+        n = rng.wpick([(2, 0), (3, 1), (3, 2), (1, 3)]) if k else 0
         vals = [rng.randint(0, k - 1) for _ in range(n)]
         if not rng.chance(0.15):
             vals = sorted(set(vals))                         # the mapper emits sets; duplicates at a low rate
         return vals
     if st == "timestamp":
-        if rng.chance(miss_p):
+        if rng.chance(miss_p) or stats["YEAR_RANGE"][0] < 0:
             return list(MISSING_TS)
         ymin, ymax = stats["YEAR_RANGE"]
         t = gen_time(rng, ymin, ymax + rng.pick([0, 0, 40]))  # also years after the fitted range
@@ -198,7 +212,7 @@ def gen_enc_case(rng, tier, cls=None):
     how = {"ctor": rng.pick(["kw", "kw", "pos"]), "tap": not rng.chance(0.2), "names": rng.chance(0.4),
            "entry": rng.pick(["call", "call", "forward"]), "move": rng.pick([None, None, "to", "cpu"]),
            "repr": rng.pick(["fresh", "fresh", "view"])}
-    stats = [gen_stats(rng, st) for _ in range(ncols)]
+    stats = [gen_stats(rng, st, allow_empty=True) for _ in range(ncols)]
     miss_p = rng.pick([0.0, 0.2, 0.4])
     if cls == "TimestampEncoder" and na is None and not rng.chance(0.5):
         miss_p = 0.0
@@ -484,6 +498,19 @@ def run_enc(case):
         except Exception as ex:
             foot.append({"cell": [r, j], "exc": C.exc_name(ex), "msg": str(ex)[:200]})
     obs["foot"] = foot
+    # the same post-module handed over bare (not wrapped in the recording Tap): same output
+    if case["post"] is not None and how.get("tap", True):
+        try:
+            torch.manual_seed(case["seed"])
+            encb, _ = H.build_encoder({"cls": case["cls"], "na": case["na"], "post": case["post"], "kw": case["kw"]},
+                                      case["channels"], [H.stats_to_lib(s) for s in case["stats"]], st, tap=False)
+            encb.load_state_dict({k.replace("post_module.inner.", "post_module."): v
+                                  for k, v in enc.state_dict().items()})
+            encb.eval()
+            ob, _, sameb = call(encb, None, to_lib(case, case["feat"]))
+            obs["bare"] = {"equal": bool(H.same(ob, out)), "mutated": not sameb}
+        except Exception as ex:
+            obs["bare"] = {"exc": C.exc_name(ex), "msg": str(ex)[:200]}
     # row selection (permutation / subset / duplicates): another batch, so a tolerance
     if case["feat"]:
         try:
@@ -563,9 +590,20 @@ def probes(case, enc, tap):
 
 # ---------------------------------------------------------------------- oracle
 def expected_finding(case):
-    """The documented upstream limitation (DESIGN.md D10): returns the key if this input is of that kind."""
+    """Stable classification of misbehaviour on a boundary input (a statement of WHICH input it is, the
+    verdict is unchanged): D10 (documented upstream limitation) and the two all-missing-column cases."""
+    if case["cls"] == "EmbeddingEncoder":
+        for row in case["feat"]:
+            for j, cell in enumerate(row):
+                if cell == -1 and case["na"] == "MOST_FREQUENT" and not case["stats"][j]["COUNT"][0]:
+                    return "categorical-most-frequent-no-category-raises"
+        return None
     if case["cls"] != "TimestampEncoder":
         return None
+    for row in case["feat"]:
+        for j, cell in enumerate(row):
+            if is_missing("timestamp", cell) and case["na"] is not None and case["stats"][j]["YEAR_RANGE"][0] < 0:
+                return "timestamp-strategy-all-missing-column-raises"
     batches = [case["feat"]]
     for cells in batches:
         for row in cells:
@@ -610,9 +648,13 @@ def oracle(case, obs):
     known = expected_finding(case)
     if not obs["ok"]:
         if known is not None and obs["stage"] == "call":
-            return dict(key=known, what=f"TimestampEncoder(na_strategy={case['na']}) raised {obs['exc']} on a batch "
-                                        f"with a {'missing timestamp' if 'missing' in known else 'year below the fitted minimum'}"
-                                        " (PositionalEncoding/CyclicEncoding domain assertion)",
+            why = {"timestamp-na-none-missing-raises": "with a missing timestamp",
+                   "timestamp-year-below-min-raises": "with a year below the fitted minimum",
+                   "timestamp-strategy-all-missing-column-raises": "whose column is entirely missing (default "
+                                                                   "statistics: the imputed cell is itself all -1)",
+                   "categorical-most-frequent-no-category-raises": "whose column has no category at all (the "
+                                                                   "imputed index 0 is outside the one-row table)"}[known]
+            return dict(key=known, what=f"{cls}(na_strategy={case['na']}) raised {obs['exc']} on a batch {why}",
                         expected="an embedding per cell", observed=dict(exc=obs["exc"], msg=obs["msg"]))
         return dict(key=f"raises:{cls}:{obs['stage']}", what=f"{cls} raised {obs['exc']} at {obs['stage']}: {obs['msg']}",
                     expected="an embedding per cell", observed=obs.get("tb"))
@@ -635,6 +677,17 @@ def oracle(case, obs):
                 return dict(key=f"leak:{cls}", what=f"changing cell {f['cell']} changed the embedding of cells {extra} "
                                                     f"({'final output' if where == 'out' else 'before the post-module'})",
                             expected=[f["cell"]], observed=f[where])
+    bare = obs.get("bare")
+    if bare is not None:
+        if "exc" in bare:
+            return dict(key=f"raises:{cls}:call", what=f"{cls} with the bare post-module {case['post']} raised "
+                                                      f"{bare['exc']}: {bare['msg']}", expected="an embedding per cell")
+        if bare["mutated"]:
+            return dict(key=f"input-mutated:{cls}", what=f"{cls}.forward (post-module {case['post']}) modified the "
+                                                         "tensor it was given")
+        if not bare["equal"]:
+            return dict(key=f"post-module-form:{cls}", what=f"{cls}: the output differs when the post-module "
+                                                            f"{case['post']} is wrapped in a recording identity")
     s = obs.get("sel")
     if s is not None:
         if "exc" in s:
@@ -754,7 +807,8 @@ def nontrivial_sig(case, obs):
 def stats(cases, obss):
     d = {"classes": {}, "na": {}, "post": {}, "rows": {}, "cols": {}, "f64": 0, "raised": 0, "missing_cells": 0,
          "cells": 0, "perturbations": 0, "perturbations_effective": 0, "reject_cases": 0, "total": 0,
-         "param_modes": {}, "numeric_terms": {}, "missing_embedding_reset_mode": 0, "how": {}, "kw_defaults": 0}
+         "param_modes": {}, "numeric_terms": {}, "missing_embedding_reset_mode": 0, "how": {}, "kw_defaults": 0,
+         "inplace_post_by_class": {}, "boundaries": {}}
     for c, o in zip(cases, obss):
         if c is None:
             continue
@@ -769,6 +823,34 @@ def stats(cases, obss):
         d["cols"][c["ncols"]] = d["cols"].get(c["ncols"], 0) + 1
         d["f64"] += bool(c["f64"])
         d["raised"] += not o.get("ok", False)
+        if c["post"] in H.INPLACE_POSTS:
+            d["inplace_post_by_class"][c["cls"]] = d["inplace_post_by_class"].get(c["cls"], 0) + 1
+        bd = d["boundaries"]
+
+        def hit(name, cond):
+            bd[name] = bd.get(name, 0) + bool(cond)
+        hit("channels=1", c["channels"] == 1)
+        hit("one column", c["ncols"] == 1)
+        hit("one row", len(c["feat"]) == 1)
+        hit("empty batch", len(c["feat"]) == 0)
+        for s_ in c["stats"]:
+            if c["stype"] == "numerical":
+                q = s_["QUANTILES"]
+                hit("numerical: entirely missing column", s_["MEAN"] is None)
+                hit("numerical: constant column", q[0] is not None and q[0] == q[4])
+                hit("numerical: min == first quartile", q[0] is not None and q[0] == q[1] and q[0] != q[4])
+                hit("numerical: median == max", q[0] is not None and q[2] == q[4] and q[0] != q[4])
+            elif c["stype"] == "categorical":
+                hit("categorical: one category", len(s_["COUNT"][0]) == 1)
+                hit("categorical: entirely missing column", len(s_["COUNT"][0]) == 0)
+            elif c["stype"] == "multicategorical":
+                hit("multicategorical: no category", len(s_["MULTI_COUNT"][0]) == 0)
+                hit("multicategorical: one category", len(s_["MULTI_COUNT"][0]) == 1)
+            elif c["stype"] == "timestamp":
+                hit("timestamp: single fitted year", s_["YEAR_RANGE"][0] == s_["YEAR_RANGE"][1] >= 0)
+                hit("timestamp: entirely missing column", s_["YEAR_RANGE"][0] < 0)
+            elif c["stype"] == "embedding":
+                hit("embedding: width 1", s_["EMB_DIM"] == 1)
         for k, v in (c.get("how") or {}).items():
             d["how"][f"{k}={v}"] = d["how"].get(f"{k}={v}", 0) + 1
         d["kw_defaults"] += (c["cls"] == "LinearPeriodicEncoder" and "n_bins" not in c["kw"]) or \
@@ -819,6 +901,15 @@ def sanity(cases, obss):
                 probs.append(f"calling convention {hv} never drawn")
         if d["kw_defaults"] == 0:
             probs.append("default n_bins / out_size never drawn")
+        for cls in KINDS:
+            if d["inplace_post_by_class"].get(cls, 0) == 0:
+                probs.append(f"no in-place post-module drawn for {cls}")
+        for p_ in H.POSTS:
+            if d["post"].get(str(p_), 0) == 0:
+                probs.append(f"post-module form {p_} never drawn")
+        for name, cnt in d["boundaries"].items():
+            if cnt == 0:
+                probs.append(f"boundary never drawn: {name}")
     if n >= 200 and d["missing_embedding_reset_mode"] == 0:
         probs.append("missing categorical / multicategorical cell never encoded with reset_parameters() alone")
     if n >= 200 and not d["numeric_terms"]:
